@@ -20,13 +20,14 @@ from .model import norm, stmt_header, walk_no_nested
 
 
 class Node:
-    __slots__ = ("id", "kind", "ast", "label")
+    __slots__ = ("id", "kind", "ast", "label", "_calls")
 
     def __init__(self, id: int, kind: str, node: ast.AST | None, label: str = ""):
         self.id = id
         self.kind = kind      # entry exit raise stmt test for with except case join
         self.ast = node
         self.label = label
+        self._calls = None
 
     @property
     def lineno(self) -> int:
@@ -78,7 +79,9 @@ class Node:
             yield from walk_no_nested(e)
 
     def calls(self) -> list[ast.Call]:
-        return [n for n in self.walk() if isinstance(n, ast.Call)]
+        if self._calls is None:
+            self._calls = [n for n in self.walk() if isinstance(n, ast.Call)]
+        return self._calls
 
     def __repr__(self) -> str:
         return f"<{self.id}:{self.kind} L{self.lineno} {self.text()[:60]}>"
